@@ -183,6 +183,9 @@ class StubWorker(wbase.Worker):
         if w.on_app_load is not None:
             w.on_app_load(t.proc)
         boot = sc.get("boot", "ok")
+        if w.boot_fail_under is not None and w.boot_fail_under(t.proc):
+            # e.g. the release a master was upgraded to cannot load its application
+            boot = w.boot_fail_kind
         if sc.get("boot_delay"):
             seams.TIME.sleep(sc["boot_delay"])
         if boot == "exit3":
@@ -280,6 +283,8 @@ class World:
         self.masters = {}            # pid -> arbiter object (of that simulated process)
         self.config_loads = []
         self.on_app_load = None
+        self.boot_fail_under = None       # predicate(worker process) -> the (stub) worker fails to boot with boot_fail_kind
+        self.boot_fail_kind = "exit3"
         self.wsgi_app = _default_app
         self.served = []             # (time, worker pid, age, marker)
         self.forks = []              # (time, parent pid, child pid, kind)
